@@ -107,8 +107,8 @@ fn generate_track(track: &Track) -> Vec<u8> {
                 let size = data.len() - 1;
                 // 1st byte must be 0xF0
                 res.push(0xF0); // SysEx Event
-                // 2nd byte must be length
-                res.push(size as u8);
+                // 2nd byte must be length (variable-length quantity)
+                array_push_delta(&mut res, size as isize);
                 // write data
                 for (i, b) in data.iter().enumerate() {
                     if i == 0 && *b == 0xF0 { continue; }
